@@ -307,7 +307,9 @@ BITS = {0: "correspondence: tree matrix differs from the model's, or the Newick 
         2: "UPGMA ultrametricity: root-to-leaf branch sums differ",
         3: "UPGMA recovery: the clades of the returned tree are not those of the generating ultrametric tree",
         4: "NJ recovery: the splits of the returned tree are not those of the generating additive tree",
-        5: "recovery: path sums in the returned tree do not reproduce the input distances"}
+        5: "recovery: path sums in the returned tree do not reproduce the input distances",
+        6: "premise of C09_nj_recovers_partial refuted on the model: a pair selected along the exact NJ run on this "
+           "additive matrix is not a cherry of the current matrix"}
 
 
 def nontrivial(case, res):
@@ -378,6 +380,7 @@ def classify(case, res):
            "%s/%s" % (case["algo"], case["kind"])]
     if case["algo"] == "nj":
         out.append("nj_certified" if res["certified"] else "nj_rejected_by_margin_filter")
+        out.append("nj/%s/%s" % (case["kind"], "certified" if res["certified"] else "rejected"))
     if case["gen"] is not None:
         out.append("has_generating_tree")
     return out
